@@ -434,6 +434,28 @@ def extra_configs(prop, tier, seed):
         for j_, kind in enumerate(['PSO', 'HC', 'ABC', 'GP', 'SA', 'CS']):
             for c in [c for c in pool_s if c['kind'] == kind][:1 if tier == 'quick' else 3]:
                 extra.append(dict(c, hook='observer', adv=0.0, hook_sig=['varargs', 'callable', 'method'][j_ % 3]))
+    if prop == 'C03':
+        # the parts of a task object replaced through the public setters after construction (one task object looped over
+        # objectives / spaces / optimizers): start() runs the task made of the parts it has now
+        pool_q = runlevel.gen_configs('thorough', seed + 361)
+        orders = [['space', 'optimizer', 'function'], ['function'], ['function', 'space'], ['optimizer'], ['space']]
+        for j_, kind in enumerate(['PSO', 'HC', 'ABC', 'GP', 'SA', 'HS', 'WCA', 'BHA']):
+            for q_, c in enumerate([c for c in pool_q if c['kind'] == kind][:1 if tier == 'quick' else 3]):
+                extra.append(dict(c, hook='observer', adv=0.0, reassign_parts=orders[(j_ + q_) % len(orders)] if j_ % 2 else True))
+        # simulated annealing whose temperature underflows to exactly 0 while the task runs (small start, quick cooling): the task
+        # still ends (NumPy-number fitness; with Python numbers the division by the temperature is the recorded finding K18)
+        base = next((c for c in pool_q if c['kind'] == 'SA' and c['space'] == 'search'), None)
+        for T_, beta_, n_, ret in ([(1e-322, 0.5, 8, 'np'), (100.0, 1e-170, 4, 'np'), (1e-322, 0.5, 8, 'py')] if base is not None else []):
+            extra.append(dict(base, hook='observer', adv=0.0, n_iter=n_, n_agents=4, hyper={'T': T_, 'beta': beta_}, rettype=ret,
+                              objective='sphere', store_best_only=False))
+    if prop == 'C04':
+        # a hook that shifts the incumbent's position in place (its fitness untouched) on objectives where the incumbent is
+        # rarely or never replaced: record t of the best agent is the best agent as it stood when iteration t ended
+        pool_n = [c for c in runlevel.gen_configs('thorough', seed + 371) if c['space'] != 'tree']
+        for j_, kind in enumerate(['HC', 'PSO', 'ABC', 'SA', 'FA', 'HS']):
+            for c in [c for c in pool_n if c['kind'] == kind][:1 if tier == 'quick' else 3]:
+                extra.append(dict(c, hook='nudgebest', adv=0.0, n_iter=max(c['n_iter'], 4), objective=['constant', 'plateau', 'sphere'][j_ % 3],
+                                  store_best_only=(j_ % 2 == 1), hyper={}))
     if prop == 'C15':
         # the ranges of the adaptive hyperparameters narrowed through the setters by a hook while the task runs
         pool_r = runlevel.gen_configs('thorough', seed + 341)
